@@ -219,6 +219,64 @@ func runC06(r *Run) {
 		r.atLeast("pointer-to-text parameters of context methods", n, 1)
 	})
 
+	r.rule("R6", "a helper that points the request at something else for the duration of a call puts it back on every path: after SendFile rewrote the request URI every return is preceded by the restoring SetRequestURI (or it is deferred before the rewrite) — OriginalURL, Query and what was taken from them stay valid until the handler returns (E1 pairing)", func() {
+		f := r.Fn("", "(*DefaultCtx).SendFile")
+		var sets []ssa.Instruction
+		var deferred ssa.Instruction
+		for _, b := range f.Blocks {
+			for _, in := range b.Instrs {
+				ci, ok := in.(ssa.CallInstruction)
+				if !ok || !strings.HasSuffix(calleeName(ci.Common()), "fasthttp.Request).SetRequestURI") {
+					continue
+				}
+				if _, isDefer := in.(*ssa.Defer); isDefer {
+					deferred = in
+				} else {
+					sets = append(sets, in)
+				}
+			}
+		}
+		r.need(len(sets) >= 1, "SendFile rewrites the request URI")
+		n := 0
+		for _, s := range sets {
+			// a rewrite that is itself the restoring call needs no partner: restoring calls are those reachable only
+			// after another rewrite; take the first rewrite(s): not reachable from any other rewrite
+			isFirst := true
+			for _, o := range sets {
+				if o != s {
+					if _, hit := reach(pointAfter(o), func(in ssa.Instruction) bool { return in == s }, nil, nil); hit != nil {
+						isFirst = false
+					}
+				}
+			}
+			if !isFirst {
+				continue
+			}
+			n++
+			okPair := false
+			if deferred != nil {
+				// the defer statement is executed on every path to the rewrite
+				_, hit := reach(entryOf(f), func(in ssa.Instruction) bool { return in == s }, nil, func(in ssa.Instruction) bool { return in == deferred })
+				okPair = hit == nil
+			}
+			if !okPair {
+				ownReturn := func(in ssa.Instruction) bool { _, ok := in.(*ssa.Return); return ok && in.Parent() == f }
+				_, hit := reach(pointAfter(s), ownReturn, nil, func(in ssa.Instruction) bool {
+					for _, o := range sets {
+						if o != s && in == o {
+							return true
+						}
+					}
+					return false
+				})
+				okPair = hit == nil && len(sets) > 1
+			}
+			r.check(okPair, fmt.Sprintf("SendFile:request-uri-rewrite#%d:restored-on-every-path", n), r.pos(s), "the original request URI is put back on every path (deferred, or before each return)",
+				"SendFile can return with the request URI still pointing at the file (an early return between the rewrite and the restore): for the rest of the chain and in the error handler OriginalURL() and Query() answer for the file name, and a string taken from OriginalURL() earlier is overwritten in place")
+		}
+		r.atLeast("request-URI rewrites in SendFile", n, 1)
+	})
+
 	r.rule("R2", "strings handed by the binders to the decoder / user maps are copies (E3)", func() {
 		cfg := immutableCfg()
 		cfg.pruneField = ""
